@@ -88,6 +88,7 @@ class Contract:
         self.lemmas = {l.id: l for l in lemmas}
         self.facts = list(facts)  # lemma instances offered to every obligation of a path where they can be evaluated
         self.stop_after = None  # cut point: verification of the function ends after this statement (text prefix)
+        self.opaque = {}  # callee text -> {"ret": ..., "effect": bool}: calls the verifier does not look into (logged)
 
 
 # ------------------------------------------------------------------------------------------------
@@ -326,6 +327,34 @@ class VEngine(E.Engine):
         return res
 
 
+def _log_views(eng, s):
+    """spec-level views of the effect log: effects (callee names in order), and per-callee argument / result tuples"""
+    views = {"log_effects": tuple(e["callee"] for e in s.log if isinstance(e, dict) and e.get("effect"))}
+    per = {"log_" + nm.replace(".", "_"): [] for nm in eng.opaque}
+    for e in s.log:
+        if not isinstance(e, dict):
+            continue
+        key = "log_" + e["callee"].replace(".", "_").replace("<", "").replace(">", "").replace(" ", "_")
+        per.setdefault(key, []).append({"args": tuple(e["args"]), "kwargs": e["kwargs"], "result": e["result"]})
+    order = [e["callee"] for e in s.log if isinstance(e, dict)]
+    views["log_order"] = tuple(order)
+    for nm in set(order) | set(eng.opaque):
+        key = "log_pos_" + nm.replace(".", "_").replace("<", "").replace(">", "").replace(" ", "_")
+        views[key] = tuple(i for i, c in enumerate(order) if c == nm)
+    for k, calls in per.items():
+        views[k + "_n"] = len(calls)
+        views[k + "_results"] = tuple(c["result"] for c in calls)
+        views[k + "_args"] = tuple(c["args"] for c in calls)
+        d_list = []
+        for c in calls:
+            d = E.HDict()
+            for kk, vv in c["kwargs"].items():
+                d.set(kk, vv)
+            d_list.append(s.alloc(d))
+        views[k + "_kwargs"] = tuple(d_list)
+    return views
+
+
 def _add_facts(eng, contract, ob, s, env):
     for lid, inst in contract.facts:
         lem = contract.lemmas[lid]
@@ -364,6 +393,7 @@ def verify_function(contract, registry, only_cases=None):
         eng.loop_specs = contract.loops
         eng.spec_defs = contract.defs
         eng.stop_after = contract.stop_after
+        eng.opaque = contract.opaque
         fors = sorted((n for n in ast.walk(node) if isinstance(n, ast.For)), key=lambda n: (n.lineno, n.col_offset))
         eng.loop_ordinals = {id(n): k + 1 for k, n in enumerate(fors)}
         eng.ghost_hooks = contract.ghosts
@@ -425,6 +455,10 @@ def verify_function(contract, registry, only_cases=None):
                     result = val if kind == "return" else None
                     env = dict(init_env)
                     env["result"] = result
+                    for lname, lval in s.scopes.get(sid, {}).items():
+                        if lval is not UNDEF:
+                            env["now_" + lname] = lval
+                    env.update(_log_views(eng, s))
                     for cl in contract.ensures:
                         if cl.when is not None and case.name not in cl.when:
                             continue
